@@ -1516,6 +1516,8 @@ class Exec:
             f = f.t[1]
         if isinstance(f, V) and isinstance(f.ty, TRec) and f.ty.name in self.w.callable_recs:
             return self.w.callable_recs[f.ty.name](self, f, args, kwargs, node)
+        if isinstance(f, V) and isinstance(f.ty, TRef) and (f.ty.cls, '__call__') in self.w.py_methods:      # a callable object given a model in the sidecar (listed as trusted there)
+            return self.w.py_methods[(f.ty.cls, '__call__')](self, f, args, kwargs, node)
         if isinstance(f, V) and isinstance(f.ty, TRef) and (f.ty.cls + '.__call__') in self.w.ext_methods:
             return self.ext_call(ExtMethod(f, f.ty.cls + '.__call__'), args, kwargs, node)
         raise Unsupported('call of %s' % (f.ty if isinstance(f, V) else type(f).__name__))
@@ -1822,7 +1824,10 @@ class Exec:
                 for f in facts: self.assume(f)
             env2 = dict(env); env2['result'] = res
             for e in c.ensures:
-                self.assume(self.eval_spec(e, env=env2, old=pre, rel=fr.rel))
+                try: self.assume(self.eval_spec(e, env=env2, old=pre, rel=fr.rel))
+                except Unsupported as ex_:
+                    # a postcondition about the callee's own locals (proved there) says nothing the caller can use: not assumed here (fewer hypotheses: sound)
+                    if 'unresolved name' not in str(ex_): raise
             return res
         ecls = outcomes[k]; spec = c.raises[ecls]
         exc = ExcV(ecls)
@@ -2040,7 +2045,16 @@ class Exec:
     def s_Global(self, st): pass
     def s_Nonlocal(self, st): pass
     def s_Import(self, st): pass
-    def s_ImportFrom(self, st): pass
+    def s_ImportFrom(self, st):
+        # function-level `from <pkg> import name`: the local name denotes the module / definition it denotes at module level
+        m = repo.module(self.frame['rel']); base = m._resolve_from(st)
+        for a in st.names:
+            info = repo.module_by_dotted(base + '.' + a.name)
+            if info is not None: self.st.env[a.asname or a.name] = ModuleRef(base + '.' + a.name, info); continue
+            info = repo.module_by_dotted(base)
+            if info is not None:
+                try: self.st.env[a.asname or a.name] = self.lookup_module(info.relpath, a.name)
+                except Unsupported: pass
     def s_Assert(self, st):
         c = self.truth_of(self.val(self.eval(st.test)))
         if not self.branch(c): self.raise_exc('AssertionError')
